@@ -37,7 +37,7 @@ func init() {
 			"inputs are (i) uniform random strings of boundary lengths with protocol magic, (ii) every prefix of each well-formed seed message, (iii) boundary-aware mutations of seeds " +
 			"(8/16/32-bit fields at every offset set to boundary values in both byte orders, truncation, terminator removal, CR/LF at the end, growth to size classes). " +
 			"oracle: no panic / fatal error; bytes allocated by the call (runtime.MemStats.TotalAlloc delta, single goroutine, confirmed by re-measuring) <= 256 KiB. " +
-			"non-trivial = the target got past its first check (verdict was not an immediate no on the first bytes) or the input is a mutation of a valid message; distinct = hash(target, input). every matcher target is also evaluated as the second member of a matcher set behind a not matcher on a connection whose peer has 24 MiB waiting (verdict at once, same allocation bound); dns / rdp / winbox targets whose options are placeholders of an environment variable that is not set.",
+			"non-trivial = the target got past its first check (verdict was not an immediate no on the first bytes) or the input is a mutation of a valid message; distinct = hash(target, input). every matcher target is also evaluated as the second member of a matcher set behind a not matcher on a connection whose peer has 24 MiB waiting (verdict at once, same allocation bound); dns / rdp / winbox targets whose options are placeholders of an environment variable that is not set. loop children: a server whose routes hold every shipped stream matcher plus a route that stays undecided until 6000..8192 bytes have arrived; seed messages (and mutations) grown to 6-9 KiB arrive in segments of arbitrary sizes: the process survives every connection and every connection is finished.",
 		Assumptions: []string{
 			"the tls handler's parsing is crypto/tls itself and is not driven here",
 			"quic matcher inputs are fewer because a single evaluation may wait 100 ms for its internal listener",
@@ -49,9 +49,10 @@ func init() {
 				return []fw.ChildSpec{
 					{Name: "inputs", Mode: "inputs", Shards: 16, Timeout: 60 * time.Minute},
 					{Name: "race", Mode: "race", Race: true, Shards: 4, Timeout: 60 * time.Minute},
+					{Name: "loop", Mode: "loop", Shards: 4, Timeout: 60 * time.Minute},
 				}
 			}
-			return []fw.ChildSpec{{Name: "inputs", Mode: "inputs", Shards: 14, Timeout: 10 * time.Minute}}
+			return []fw.ChildSpec{{Name: "inputs", Mode: "inputs", Shards: 14, Timeout: 10 * time.Minute}, {Name: "loop", Mode: "loop", Shards: 2, Timeout: 10 * time.Minute}}
 		},
 		Run:    run,
 		Replay: replay,
@@ -210,6 +211,10 @@ var busy atomic.Int64 // unix-nano start of the call in flight (0 = idle)
 var busyWhat atomic.Value
 
 func run(c *fw.Ctx) {
+	if c.Mode == "loop" {
+		runLoop(c)
+		return
+	}
 	hmods.Quiet(c.OutDir + "/caddyhome")
 	if c.Mode != "race" {
 		// an attacker-sized allocation should die fast with a stack instead of zeroing gigabytes
@@ -410,6 +415,9 @@ func trimHex(s string) string {
 }
 
 func replay(c *fw.Ctx, raw json.RawMessage) {
+	if replayLoop(c, raw) {
+		return
+	}
 	var w Witness
 	if err := json.Unmarshal(raw, &w); err != nil {
 		fmt.Println("replay:", err)
